@@ -115,9 +115,11 @@ Defect(kind, cls) ==
       [] cls = "wrongmsg"   -> {E(INVALID_SIGNATURE_OR_SUBSCRIPTION_ERROR)}   \* a signature of something else
       [] OTHER              -> {}
 
-(* A defect the tower may also let pass (nothing documented forbids it): an *)
-(* empty encrypted blob.                                                    *)
-Lenient(kind, cls) == kind = "hexvar" /\ cls = "empty"
+(* A defect the tower may also let pass: none.  (An empty encrypted blob    *)
+(* used to be let through and was then stored without costing a slot, which *)
+(* breaks C07's "never less than one"; repaired in the code - it is now     *)
+(* refused with EMPTY_FIELD like an empty locator or signature.)            *)
+Lenient(kind, cls) == FALSE
 
 -----------------------------------------------------------------------------
 (* Tower state classes                                                      *)
@@ -125,13 +127,15 @@ Lenient(kind, cls) == kind = "hexvar" /\ cls = "empty"
 (*             more registration overflows the slot counter)                *)
 (*           others:   "unreg" | "reg" | "expired" | "noslots"              *)
 (*   loc:    "na" | "fresh" (tower holds nothing) | "watched" (appointment  *)
-(*           held) | "triggered" (a tracker exists)                         *)
+(*           held) | "triggered" (a tracker exists) | "resolved" (dispute   *)
+(*           confirmed, the node said the penalty is already on chain: the  *)
+(*           appointment is still held, there is no tracker)                *)
 StateCombos(ep) ==
     CASE ep = "register" -> {<<"new", "na">>, <<"reg", "na">>, <<"maxed", "na">>}
       [] ep = "add_appointment" -> {<<"unreg", "fresh">>, <<"expired", "fresh">>, <<"noslots", "fresh">>,
-                                    <<"reg", "fresh">>, <<"reg", "watched">>, <<"reg", "triggered">>}
+                                    <<"reg", "fresh">>, <<"reg", "watched">>, <<"reg", "triggered">>, <<"reg", "resolved">>}
       [] ep = "get_appointment" -> {<<"unreg", "watched">>, <<"expired", "watched">>, <<"reg", "fresh">>,
-                                    <<"reg", "watched">>, <<"reg", "triggered">>}
+                                    <<"reg", "watched">>, <<"reg", "triggered">>, <<"reg", "resolved">>}
       [] ep = "get_subscription_info" -> {<<"unreg", "na">>, <<"expired", "na">>, <<"reg", "na">>, <<"noslots", "na">>}
 
 DefaultState(ep) ==
@@ -259,7 +263,7 @@ BodyCases ==
 
 FieldCasesOf(ep) ==
     UNION {
-        IF Defective(ep, fc) = {}
+        IF Hard(ep, fc) = {}        \* no defect, or only defects the tower may let pass (an empty blob): every tower state
         THEN {Req("fields", "POST", ep, "natural", "object", fc, sl[1], sl[2], n) : sl \in StateCombos(ep), n \in {"up", "down"}}
         ELSE {Req("fields", "POST", ep, "natural", "object", fc, DefaultState(ep)[1], DefaultState(ep)[2], n) : n \in {"up", "down"}}
         : fc \in FieldAssignments(ep)}
